@@ -1839,10 +1839,79 @@ func ruleFramePair(r *Run) {
 // (a) has a type that cannot hold session data — no model type, module state, message or responder is
 // reachable from it through fields, pointers, elements — and (b) is assigned only by its declaration or
 // an init function.
+// perConnectionObjects (J5, second clause): the objects that hold one connection's session binding — the
+// realtime handler and the modules plugged into it — are built for each connection: the handler literal sits in
+// a function literal (or in glue reached from one), not in main itself, and its module list is a literal built in
+// that same function from freshly constructed modules. A list built once and captured (or kept in a package-level
+// variable) makes every connection share the same module objects: their session, participant and state follow
+// whichever connection joined last.
+func (r *Run) perConnectionObjects() {
+	rhT := r.P.LookupType(pkgWS, "RealtimeHandler")
+	if rhT == nil {
+		r.Undecide("J5", "type websocket.RealtimeHandler not found")
+		return
+	}
+	n := 0
+	funcs := append([]*Func{}, r.P.All...)
+	for _, lf := range r.P.Lits {
+		funcs = append(funcs, lf)
+	}
+	sort.Slice(funcs, func(i, j int) bool { return funcs[i].Name < funcs[j].Name })
+	for _, fn := range funcs {
+		if fn.Pkg.PkgPath != repoMod+"/cmd" {
+			continue
+		}
+		info := fn.Info()
+		ast.Inspect(fn.Body, func(nd ast.Node) bool {
+			if l, isLit := nd.(*ast.FuncLit); isLit && r.P.Lits[l] != fn {
+				return false // judged as a function of its own
+			}
+			cl, ok := nd.(*ast.CompositeLit)
+			if !ok {
+				return true
+			}
+			t := info.TypeOf(cl)
+			if t == nil || !types.Identical(t, rhT.Type()) {
+				return true
+			}
+			n++
+			// (1) built per connection: inside a literal, or in a function that is not main
+			perConn := fn.Lit != nil || (fn.Obj != nil && fn.Obj.Name() != "main")
+			r.Check("J5", "cmd:handler-built-per-connection", perConn, cl.Pos(), "the realtime handler is built in %s, outside any per-connection function: all connections would share one handler", fn.Name)
+			// (2) its modules are built here too
+			mv := litField(cl, "Modules")
+			if mv == nil {
+				return true
+			}
+			ml, mfn := r.P.compositeOfIn(fn, mv)
+			inside := ml != nil && mfn.root() == fn.root() && ml.Pos() >= fn.Body.Pos() && ml.End() <= fn.Body.End()
+			fresh := inside
+			if inside {
+				for _, el := range ml.Elts {
+					switch v := ast.Unparen(el).(type) {
+					case *ast.UnaryExpr:
+						if _, isCL := ast.Unparen(v.X).(*ast.CompositeLit); !isCL || v.Op != token.AND {
+							fresh = false
+						}
+					case *ast.CallExpr, *ast.CompositeLit:
+					default:
+						fresh = false
+					}
+				}
+			}
+			r.Check("J5", "cmd:modules-built-per-connection", fresh, mv.Pos(),
+				"the modules handed to a connection's handler are not constructed in the function that builds that handler (%s): a module list built once and shared makes every connection use the same module objects, whose session and state follow the connection that joined last", r.P.exprStr(mv))
+			return true
+		})
+	}
+	r.Floor("J5", "realtime handler constructions in package cmd", n, 1)
+}
+
 func ruleNoGlobalSessionData(r *Run) {
 	if r.broken() {
 		return
 	}
+	r.perConnectionObjects()
 	carrier := func(t types.Type) string {
 		seen := map[types.Type]bool{}
 		var visit func(t types.Type, depth int) string
